@@ -534,10 +534,9 @@ func (p *P2P) OnPeerError(err error, publicKey []byte, remoteAddr string, uuid u
 // NewStreams() creates map of streams for the multiplexing architecture
 func (p *P2P) NewStreams() (streams map[lib.Topic]*Stream) {
 	streams = make(map[lib.Topic]*Stream, lib.Topic_INVALID+1)
-	for i := range lib.Topic_INVALID {
-		if i == lib.Topic_HEARTBEAT {
-			continue
-		}
+	// NOTE: only the defined application topics (those below HEARTBEAT) get a stream: iterating up to Topic_INVALID (99)
+	// also created streams for the undefined ids 7-98, whose packets were then accepted and buffered instead of rejected
+	for i := lib.Topic(0); i < lib.Topic_HEARTBEAT; i++ {
 		streams[i] = &Stream{
 			topic:        i,
 			msgAssembler: make([]byte, 0),
